@@ -200,9 +200,10 @@ def render_query(case, sp=None, lang='py'):
         pairs = []
         for lhs, rhs in q['jkeys']:
             l = 'NR' if lhs == 0 else fld(['fld', 'a', lhs], case, sp, lang)
+            # a.NR / b.NR are looked up as column names when the table has a header (observation I9): only without header
             if lhs == 0:
-                l = sp.pick(['NR', 'aNR', 'a.NR']) if lang == 'py' else 'NR'
-            r = sp.pick(['bNR', 'b.NR']) if rhs == 0 else fld(['fld', 'b', rhs], case, sp, lang)
+                l = sp.pick(['NR', 'aNR'] + ([] if case['hasHdr'] else ['a.NR'])) if lang == 'py' else 'NR'
+            r = sp.pick(['bNR'] + ([] if case['hasHdr'] else ['b.NR'])) if rhs == 0 else fld(['fld', 'b', rhs], case, sp, lang)
             eq = sp.pick(['==', '=', ' == ', ' = '])
             # field keys may be written in either side order; NR / bNR keep their sides (C04 quantifier)
             swap = lhs != 0 and rhs != 0 and sp.pick([False, True])
